@@ -146,7 +146,7 @@ IllFormed(ev) ==
        \cup If(sh.sense # ev.sense, "optimisation sense changed")
 ErrKinds == {"NonLinearExpression", "DivisionByZero", "EmptyAggregation", "VarAlreadyDeclared",
              "UnimplementedExpression", "NonBinaryLogicOperand", "MissingFiniteBounds",
-             "NonFiniteConstant", "InvalidDomain"}
+             "NonFiniteConstant", "InvalidDomain", "UndeclaredVariable"}
 \* a declared range that is not a domain: minimum above maximum, or a NonNegativeReal starting below zero
 InvalidDom(d) == \/ (d.lo.inf = 0 /\ d.hi.inf = 0 /\ d.lo.n * d.hi.d > d.hi.n * d.lo.d)
                  \/ (d.kind = "nnreal" /\ d.lo.inf = 0 /\ d.lo.n < 0)
@@ -157,6 +157,8 @@ BadErr(ev) ==
    \cup If(ev.err.kind = "VarAlreadyDeclared" /\ ev.err.name \notin Declared(ev), "auxiliary clash without a user variable of that name")
    \cup If(ev.err.kind = "InvalidDomain" /\ ~\E i \in 1..Len(ev.sdom) : ev.sdom[i].name = ev.err.name /\ InvalidDom(ev.sdom[i]),
            "invalid-domain error for a variable whose declared range is a domain")
+   \cup If(ev.err.kind = "UndeclaredVariable" /\ (ev.err.name \in Declared(ev) \/ ev.err.name \notin SrcVars(ev)),
+           "undeclared-variable error for a variable that is declared, or that the model does not use")
    \cup If(ev.err.kind = "NonFiniteConstant" /\ ev.srcfinite,
            "non-finite constant although every source constant is finite: an underivable bound must be reported as missing bounds")
    \cup If(ev.err.kind = "MissingFiniteBounds" /\
@@ -206,7 +208,9 @@ Check(ev) ==
    IF "twin" \in DOMAIN ev THEN TwinCheck(ev) ELSE
    /\ (Has("C08") => CheckWF(ev))
    /\ (Has("DIV") => CheckDiv(ev))
-   /\ IF ~Judgeable(ev) THEN PrintT(<<"SKIP", ev.id, ev.out>>)
+   \* (a compiled model whose source uses a variable it does not declare has no meaning to compare with:
+   \* CheckWF has reported it)
+   /\ IF ~Judgeable(ev) \/ ~(SrcVars(ev) \subseteq Declared(ev)) THEN PrintT(<<"SKIP", ev.id, ev.out>>)
       ELSE /\ (Has("C01") => Report("C01", ev, BadFeas(ev), "projection"))
            /\ (Has("C02") => Report("C02", ev, BadObj(ev), "objective"))
            /\ (Has("C07") => Report("C07", ev, BadRange(ev), "range"))
